@@ -362,7 +362,14 @@ func init() {
 		return true
 	})
 	reg("strings.TrimSpace", func(e *Engine, st *State, c *callCtx) bool {
-		c.ret(st, e.trimSpace(c.str(e, st, 0)))
+		a := c.str(e, st, 0)
+		if v, ok := st.side["trim:"+a.S]; ok {
+			c.ret(st, v)
+			return true
+		}
+		r := e.trimSpace(a)
+		st.side["trim:"+a.S] = r
+		c.ret(st, r)
 		return true
 	})
 	reg("strings.Split", func(e *Engine, st *State, c *callCtx) bool {
@@ -557,6 +564,12 @@ func (e *Engine) split(st *State, c *callCtx, s, sep *Term, n int) bool {
 		parts := make([]*Term, k)
 		var cs []*Term
 		var cat []*Term
+		if k == 1 {
+			if lastFree {
+				return []*Term{s}, tTrue
+			}
+			return []*Term{s}, Not(StrContains(s, sep))
+		}
 		for i := 0; i < k; i++ {
 			parts[i] = e.freshVar("piece", SStr)
 			if i > 0 {
